@@ -356,7 +356,7 @@ func cmdCheck(args []string) int {
 			}
 		}
 	}
-	if prop == "C12" {
+	if prop == "C12" || prop == "C02" {
 		obs, errs := w.bpfObligations()
 		for _, e := range errs {
 			viol++
@@ -365,6 +365,9 @@ func cmdCheck(args []string) int {
 			fmt.Printf("VIOLATION property=%s replay=%s no-failing-input-found\n", prop, rp)
 		}
 		for _, ob := range obs {
+			if ob.Prop != prop {
+				continue
+			}
 			nObl++
 			r := solve(ob.Query, sanitize(ob.Name), opt.TimeoutMs, opt.Thorough, true)
 			fuc = append(fuc, map[string]interface{}{"unit": ob.Name, "cbpf_instructions": ob.Instrs, "obligations": 1, "secs": round2(r.Secs), "logic": "QF_ABV bit-vector lemma, all frames x all configurations"})
